@@ -12,7 +12,7 @@ RULE = ("(a) CellWrapper.fit alone, bounded-exhaustive: 1-3 columns x one row of
         "for byte (text, column widths, wrapped rows, flags); (c) the same tables with style-tagged cells (registered tags, nested "
         "tags, inline styles, a tag over several words, escaped tags, a lone '<'), on a plain formatter, a forced ANSI formatter "
         "and an ANSI formatter that is not forced on a stream without ANSI support: compared with the model in the same way "
-        "whenever no cell holding '<' has to be wrapped (observed on the implementation: the cell reaches textwrap); (d) tables "
+        "(when a cell holding '<' has to be wrapped, with the model's raw-wrap layer render_table_r); (d) tables "
         "with unbalanced or invalid markup (a tag left open, closed in another cell, an unknown colour): model comparison only; "
         "non-trivial = a table in which at least one cell was wrapped; distinct by (cells, style, width, indentation)")
 TRUSTED = ["the share int(round(length / actual * available)) is computed in floating point by the code; the model takes the rounding "
@@ -21,8 +21,8 @@ TRUSTED = ["the share int(round(length / actual * available)) is computed in flo
            "textwrap.wrap is modelled by Model/Wrap.v (compared with CPython's on every run by C13 and here through every wrapped cell)",
            "wrapped rows / column lengths are read from Table._get_cell_wrapper (private, no source change)"]
 ASSUMPTIONS = ["model comparison: cells contain no tab, no line break and no non-ASCII word character other than letters; a table in "
-               "which a cell holding '<' has to be wrapped is outside the model (Err (Other 20): the recorded finding) and judged by "
-               "the oracle alone",
+               "which a cell holding '<' has to be wrapped is compared with the model's raw-wrap layer (render_table_r: textwrap on "
+               "the raw cell, as the code does) byte for byte, and its oracle failures carry the class prefix of the known finding",
                "the Style objects of the table style (border style, cell style, header cell style) are None, as in every predefined "
                "TableStyle (asserted on every case)",
                "every row has the table's number of columns (Table.add_row enforces it)"]
